@@ -187,6 +187,9 @@ func (l *Line) Normalize(normalizers tax.Normalizers) {
 	tax.Normalize(normalizers, l.Discounts)
 	tax.Normalize(normalizers, l.Charges)
 	tax.Normalize(normalizers, l.Substituted)
+	// Clean again, normalization may have emptied some of the rows.
+	l.Discounts = CleanLineDiscounts(l.Discounts)
+	l.Charges = CleanLineCharges(l.Charges)
 }
 
 // Normalize performs normalization on the subline and embedded objects using the
@@ -199,6 +202,9 @@ func (sl *SubLine) Normalize(normalizers tax.Normalizers) {
 	tax.Normalize(normalizers, sl.Item)
 	tax.Normalize(normalizers, sl.Discounts)
 	tax.Normalize(normalizers, sl.Charges)
+	// Clean again, normalization may have emptied some of the rows.
+	sl.Discounts = CleanLineDiscounts(sl.Discounts)
+	sl.Charges = CleanLineCharges(sl.Charges)
 }
 
 func removeLineIncludedTaxes(line *Line, cat cbc.Code) *Line {
